@@ -88,6 +88,10 @@ impl Engine for MigrEngine {
         // own tape: somebody creates the destination after this many virtual microseconds
         let mut it = Tape::fresh(mix(seed, 0x1A7D));
         knobs.insert("intruder_after_us".into(), if it.chance(1, 5) { it.below(30_000) as i64 } else { -1 });
+        // own tape: somebody touches the SOURCE (new modification time, same bytes) while the copy is
+        // under way - the migration may notice and fail, but then nothing may be left at the destination
+        let mut tt = Tape::fresh(mix(seed, 0x70C4));
+        knobs.insert("toucher_after_us".into(), if knobs.get("intruder_after_us") == Some(&-1) && tt.chance(1, 6) { tt.below(30_000) as i64 } else { -1 });
         knobs.insert("dest_faults".into(), c.chance(1, 3) as i64);
         // own tape: syncing the destination's directory fails now and then (hook H10) - a failure
         // after the destination was linked must still leave nothing at the destination path
@@ -191,9 +195,25 @@ impl Engine for MigrEngine {
                 }
             })
         });
+        let touch_after_us = sc.knob("toucher_after_us", -1);
+        let toucher = (touch_after_us >= 0).then(|| {
+            let (sim2, path2) = (Arc::clone(sim), src_path.clone());
+            feoxdb::verif::thread::name_next_spawn("intruder");
+            feoxdb::verif::thread::spawn(move || {
+                sim2.sleep(std::time::Duration::from_micros(touch_after_us as u64));
+                match std::fs::OpenOptions::new().write(true).open(&path2) {
+                    Ok(f) => f.set_modified(std::time::UNIX_EPOCH + std::time::Duration::from_secs(1_234_567)).is_ok(),
+                    Err(_) => false,
+                }
+            })
+        });
         sim.op_begin("migrate");
         let result = migrate(MigrationOptions::new(&src_path, &dst_path).allow_ambiguous_legacy_recovery(allow));
         sim.op_end();
+        let touched = toucher.map(|h| h.join().unwrap_or(false)).unwrap_or(false);
+        if touch_after_us >= 0 {
+            report.count(if touched { "source_touched_during_or_after_migration" } else { "source_touch_failed" }, 1);
+        }
         let intruded = intruder.map(|h| h.join().unwrap_or(false)).unwrap_or(false);
         if intrude_after_us >= 0 {
             report.count(if intruded { "intruder_created_destination" } else { "intruder_came_too_late" }, 1);
@@ -265,6 +285,7 @@ impl Engine for MigrEngine {
                 let dir_sync_failed = sim.stats().fail_hits.get("migrate.dir_sync").copied().unwrap_or(0);
                 report.count("dir_sync_failures_with_failed_migration", (dir_sync_failed > 0) as u64);
                 let justified = existing
+                    || touched
                     || dir_sync_failed > 0
                     || (dest_faults && dest_fault_fired > 0)
                     || decoded.is_err()
